@@ -63,6 +63,7 @@ class CoreMixin:
         self.polarity = 0
         self.goal_mode = False
         self.in_old = 0
+        self.let_defs = {}
         self.entail_cache = {}
         self.entail_queries = 0
         self.cur_clause = None
@@ -116,11 +117,30 @@ class CoreMixin:
         """a fresh exception of unknown class below `base`"""
         c = self.ctx.fresh(tag + "_cls", INT)
         st.assume(self.issub_term(c, base))
-        # closure under the known hierarchy
-        for n in list(self.bases):
-            for b in self.bases[n]:
+        # closure under the hierarchy, for the exception classes this function can tell apart
+        for n in sorted(self.relevant_exceptions()):
+            for b in self.bases.get(n, ()):
                 st.assume(smt.Implies(self.issub_term(c, n), self.issub_term(c, b)))
         return Exc(None, c)
+
+    def relevant_exceptions(self):
+        if getattr(self, "_relevant_exc", None) is None:
+            names = set(k.split("!")[0] for k in self.contract.raises if k.split("!")[0] in self.bases)
+            for k in self.contract.raises:
+                names |= {x for x in k.split("!")[1:] if x in self.bases}
+            for n in ast.walk(self.found.node):
+                if isinstance(n, ast.ExceptHandler) and n.type is not None:
+                    for x in (n.type.elts if isinstance(n.type, ast.Tuple) else [n.type]):
+                        nm = x.id if isinstance(x, ast.Name) else getattr(x, "attr", None)
+                        if nm in self.bases:
+                            names.add(nm)
+            for cid in list(self.callee_exc_names):
+                names.add(cid)
+            out = set()
+            for n in names:
+                out |= {m for m in self.mro(n) if m in self.bases}
+            self._relevant_exc = out
+        return self._relevant_exc
 
     def exc_matches(self, exc, names):
         """Bool term: exception is caught by a handler naming `names`"""
@@ -159,11 +179,11 @@ class CoreMixin:
         ts = [self.ctx.fresh(base, s) for s in flatten(ty)]
         v = SV(ty, ts)
         if st is not None:
-            for t in self.wf(v):
+            for t in self.wf(v, st):
                 st.assume(t)
         return v
 
-    def wf(self, v):
+    def wf(self, v, st=None):
         """well-formedness facts of a fresh value"""
         out = []
         k = v.ty.kind
@@ -174,20 +194,20 @@ class CoreMixin:
             out.append(smt.And(smt.Le(smt.Int(0), v.ts[1]), smt.Le(v.ts[1], smt.Int(2))))
         if k == "ref":
             out.append(smt.Gt(v.ts[0], smt.Int(0)))
-            out.append(self.known_ref_fact(v.ts[0]))
+            out.append(self.known_ref_fact(v.ts[0], st))
         if k == "list" and v.ty.args[0].kind == "ref":
             iv = T("i!al", INT)
             q = smt.Forall([("i!al", INT)], smt.Implies(smt.And(smt.Le(smt.Int(0), iv), smt.Lt(iv, smt.Len(v.ts[0]))),
-                                                         self.known_ref_fact(smt.At(v.ts[0], iv))))
+                                                         self.known_ref_fact(smt.At(v.ts[0], iv), st)))
             if q.s != "true":
-                self.ctx.qreg[q.s] = ("i!al", q.s[len("(forall ((i!al Int)) "):-1])
+                self.ctx.qreg[q.s] = ("i!al", q.s[len("(forall ((i!al Int)) "):-1], INT)
             out.append(q)
         if k == "opt":
             inner = opt_inner(v)
-            out += [smt.Implies(smt.Not(v.ts[0]), t) for t in self.wf(inner)]
+            out += [smt.Implies(smt.Not(v.ts[0]), t) for t in self.wf(inner, st)]
         if k == "tuple":
             for it in tuple_items(v):
-                out += self.wf(it)
+                out += self.wf(it, st)
         return out
 
     # -- coercion ----------------------------------------------------------
@@ -409,15 +429,29 @@ class CoreMixin:
         v = SV(h.ty, [smt.Select(a, ref_t) for a in h.ts])
         if not self.spec_mode:
             if h.ty.kind == "ref":
-                st.assume(self.known_ref_fact(v.ts[0]))
+                st.assume(self.known_ref_fact(v.ts[0], st))
             elif h.ty.kind == "opt" and h.ty.args[0].kind == "ref":
-                st.assume(smt.Or(v.ts[0], self.known_ref_fact(v.ts[1])))
+                st.assume(smt.Or(v.ts[0], self.known_ref_fact(v.ts[1], st)))
         return v
+
+    def name_term(self, st, t, base="let", limit=300):
+        """replace a large term by a fresh constant defined equal to it (keeps VC text linear)"""
+        if len(t.s) <= limit:
+            return t
+        c = self.ctx.fresh(base, t.sort)
+        st.assume(smt.Eq(c, t))
+        self.let_defs[c.s] = smt.symbols(t.s)
+        return c
+
+    def name_sv(self, st, v, base="let"):
+        if not isinstance(v, SV) or not v.ts or all(len(t.s) <= 300 for t in v.ts):
+            return v
+        return SV(v.ty, [self.name_term(st, t, base) for t in v.ts], v.py)
 
     def heap_write(self, st, ref_t, f, val):
         h = self.heap_arr(st, f)
         val = self.coerce(val, h.ty, st, " (field %s)" % f)
-        st.heap[f] = SV(h.ty, [smt.Store(a, ref_t, x) for a, x in zip(h.ts, val.ts)])
+        st.heap[f] = self.name_sv(st, SV(h.ty, [smt.Store(a, ref_t, x) for a, x in zip(h.ts, val.ts)]), "H_" + f)
 
     def heap_havoc(self, st, f, at=None):
         h = self.heap_arr(st, f)
@@ -436,14 +470,19 @@ class CoreMixin:
         r = self.ctx.fresh(base, INT)
         st.assume(smt.Gt(r, smt.Int(0)))
         st.assume(smt.Not(self.alloc0(r)))
-        for other in self.allocated:
+        for other in st.allocated:
             st.assume(smt.Not(smt.Eq(r, other)))
-        self.allocated.append(r)
+        st.allocated = st.allocated + (r,)
         return r
 
-    def known_ref_fact(self, v):
-        """a reference found in the heap / ghost state was allocated at entry or is one of the new objects"""
-        return smt.Or(self.alloc0(v), *[smt.Eq(v, n) for n in self.allocated])
+    def known_ref_fact(self, v, st=None):
+        """A reference found in the entry state denotes an object allocated at entry; one found later,
+        before any callee ran, is that or one of the objects this call created.  After a callee has
+        run nothing is assumed (it may have created objects)."""
+        if not self.contract.alloc_facts or (st is not None and st.calls > 0):
+            return smt.TRUE
+        news = st.allocated if st is not None else ()
+        return smt.Or(self.alloc0(v), *[smt.Eq(v, n) for n in news])
 
     def alloc(self, st, clsname):
         r = self.new_ref(st, "new_%s" % clsname)
@@ -451,7 +490,7 @@ class CoreMixin:
         return SV(Ref(clsname), [r])
 
     def known_refs(self, st):
-        out = list(self.allocated)
+        out = list(st.allocated)
         for v in st.env.values():
             if isinstance(v, SV) and v.ty.kind == "ref":
                 out.append(v.ts[0])
